@@ -270,3 +270,28 @@ def env_seed() -> int:
         return int(os.environ.get("VERIF_SEED", "0"))
     except ValueError:
         return 0
+
+
+# --------------------------------------------------------------------------
+# bounded run cache: real-run observations cached under .cache/ are keyed by the source
+# state; whenever the source fingerprint changes (another commit, a seeded tree through
+# SNOW_REPO) the cached observations of the previous state are deleted, so the cache never
+# holds more than one source state (disk space is limited; ~200 MB per state).
+# --------------------------------------------------------------------------
+def prune_cache():
+    d = VERIF / ".cache"
+    try:
+        d.mkdir(parents=True, exist_ok=True)
+        marker = d / "FINGERPRINT"
+        fp = repo_fingerprint()
+        old = marker.read_text().strip() if marker.exists() else ""
+        if old != fp:
+            for pat in ("*.json", "*.json.gz", "*.tmp*"):
+                for f in list(d.glob(pat)) + list(d.glob("*/" + pat)):
+                    try:
+                        f.unlink()
+                    except OSError:
+                        pass
+            marker.write_text(fp + "\n")
+    except OSError:
+        pass
